@@ -125,6 +125,12 @@ Fixpoint keep_non1 {A} (sh : list Z) (l : list A) : list A :=
 Definition ss_squeeze (x : coo Z) : coo Z :=
   mkCOO (keep_non1 (c_shape x) (c_shape x)) (map (keep_non1 (c_shape x)) (c_coords x)) (c_data x) (c_fill x).
 
+(* COO.squeeze(axis) with one integer axis: ValueError unless that axis has extent 1 *)
+Definition ss_squeeze_axis (x : coo Z) (ax : Z) : res (coo Z) :=
+  if negb (znth (c_shape x) ax =? 1) then Raise ValueError
+  else Ok (mkCOO (remove_nth (c_shape x) (Z.to_nat ax))
+                 (map (fun ix => remove_nth ix (Z.to_nat ax)) (c_coords x)) (c_data x) (c_fill x)).
+
 (* COO(..., prune=True) *)
 Definition ss_prune (x : coo Z) : coo Z :=
   let es := filter (fun e => negb (snd e =? c_fill x)) (combine (c_coords x) (c_data x)) in
@@ -144,17 +150,21 @@ Definition ss_moveaxis (x : coo Z) (src dst : Z) : res (coo Z) :=
 
 Definition ss_sort (x0 : coo Z) (axis0 : Z) (desc : bool) : res (coo Z) :=
   let ond := ndimZ x0 in
-  let '(x, axis) := if ond =? 1 then (newaxis_front x0, -1) else (x0, axis0) in
-  x1 <- ss_moveaxis x axis (-1) ;;
-  let xsh := c_shape x1 in
-  let L := last xsh 0 in
-  x2 <- ss_reshape x1 [-1; L] ;;
-  let '(gc, ri, d) := sort_coo (map (fun ix => znth ix 0) (c_coords x2))
-                               (map (fun ix => znth ix 1) (c_coords x2)) (c_data x2) (c_fill x2) L desc in
-  let x3 := mkCOO (c_shape x2) (zip2 gc ri) d (c_fill x2) in
-  x4 <- ss_reshape x3 xsh ;;
-  x5 <- ss_moveaxis x4 (-1) axis ;;
-  Ok (if ndimZ x5 =? ond then x5 else ss_squeeze x5).
+  match norm_axis ond axis0 with                          (* axis = normalize_axis(axis, x.ndim) *)
+  | None => Raise ValueError
+  | Some ax0 =>
+    let '(x, axis) := if ond =? 1 then (newaxis_front x0, -1) else (x0, Z.of_nat ax0) in
+    x1 <- ss_moveaxis x axis (-1) ;;
+    let xsh := c_shape x1 in
+    let L := last xsh 0 in
+    x2 <- ss_reshape x1 [size (removelast xsh); L] ;;
+    let '(gc, ri, d) := sort_coo (map (fun ix => znth ix 0) (c_coords x2))
+                                 (map (fun ix => znth ix 1) (c_coords x2)) (c_data x2) (c_fill x2) L desc in
+    let x3 := mkCOO (c_shape x2) (zip2 gc ri) d (c_fill x2) in
+    x4 <- ss_reshape x3 xsh ;;
+    x5 <- ss_moveaxis x4 (-1) axis ;;
+    if ndimZ x5 =? ond then Ok x5 else ss_squeeze_axis x5 0
+  end.
 
 (* ------------------------------------------------------------------ _compute_minmax_args *)
 
@@ -186,17 +196,25 @@ Definition ss_argminmax (maxm : bool) (x0 : coo Z) (axis0 : option Z) (keepdims 
   if (match axis0 with Some a => nd0 <=? a | None => false end) then Raise ValueError
   else if nd0 =? 0 then Raise ValueError
   else
-    '(x, axis, orig) <- match axis0 with
-                        | None => xf <- ss_reshape x0 [-1] ;; Ok (newaxis_back xf, 0, Some nd0)
-                        | Some a => Ok (x0, a, None)
-                        end ;;
-    let x := if (axis =? 0) && (ndimZ x =? 1) then newaxis_back x else x in
-    '(a, rest) <- py_pop (iota (length (c_shape x))) axis ;;
-    '(s, srest) <- py_pop (c_shape x) axis ;;
-    let xt := ss_transpose x (a :: rest) in
-    match srest with
-    | [] => Raise ValueError              (* np.prod(()) is the float 1.0: not a valid shape entry *)
-    | _ =>
+    axisn <- match axis0 with                              (* axis = normalize_axis(axis, x.ndim) *)
+             | None => Ok None
+             | Some a => match norm_axis nd0 a with
+                         | None => Raise ValueError
+                         | Some ax => Ok (Some (Z.of_nat ax))
+                         end
+             end ;;
+    if (match axisn with None => size (c_shape x0) =? 0 | Some a => znth (c_shape x0) a =? 0 end)
+    then Raise ValueError                                  (* attempt to get argmax of an empty sequence *)
+    else
+      '(x, axis, orig) <- match axisn with
+                          | None => xf <- ss_reshape x0 [-1] ;; Ok (newaxis_back xf, 0, Some nd0)
+                          | Some a => Ok (x0, a, None)
+                          end ;;
+      let input_1d := (match orig with None => true | Some _ => false end) && (ndimZ x =? 1) in
+      let x := if (axis =? 0) && (ndimZ x =? 1) then newaxis_back x else x in
+      '(a, rest) <- py_pop (iota (length (c_shape x))) axis ;;
+      '(s, srest) <- py_pop (c_shape x) axis ;;
+      let xt := ss_transpose x (a :: rest) in
       xr <- ss_reshape xt [s; size srest] ;;
       let '(ri, rd) := minmax_args (map (fun ix => znth ix 0) (c_coords xr))
                                    (map (fun ix => znth ix 1) (c_coords xr)) (c_data xr) s (c_fill xr) maxm in
@@ -204,12 +222,14 @@ Definition ss_argminmax (maxm : bool) (x0 : coo Z) (axis0 : option Z) (keepdims 
       r1 <- ss_reshape r (1 :: srest) ;;
       '(h, t) <- py_pop (iota (length (c_shape r1))) 0 ;;
       let r2 := ss_transpose r1 (py_insert t axis h) in
-      r3 <- match orig with
-            | Some n => ss_reshape r2 (map (fun _ => 1) (seq 0 (Z.to_nat n)))
-            | None => Ok r2
-            end ;;
-      Ok (if keepdims then r3 else ss_squeeze r3)
-    end.
+      match orig with
+      | Some n =>
+        r3 <- ss_reshape r2 (map (fun _ => 1) (seq 0 (Z.to_nat n))) ;;
+        Ok (if keepdims then r3 else ss_squeeze r3)
+      | None =>
+        r3 <- (if input_1d then ss_reshape r2 [1] else Ok r2) ;;
+        if keepdims then Ok r3 else ss_squeeze_axis r3 axis
+      end.
 
 (* ------------------------------------------------------------------ unique_values / unique_counts *)
 
